@@ -44,10 +44,11 @@ ASSUMPTIONS = [
   "ordinary frames, which is what the option documents",
 ]
 EXHAUSTIVE_SCOPE = {
-  "quick": "all histories of length <= 3 over the 19-op alphabet (3 hosts on one 4-port switch: 12 unicast/broadcast/unknown "
-           "frames (host 0 sends IPv4/UDP with ECN bits set, host 1 first fragments of IPv4/TCP with a DSCP, host 2 an opaque ethertype), LLDP-type and 01:80:c2:00:00:00 frame, 3 moves, advance 12 s / 32 s) x 4 configurations "
-           "(transparent, pool, miss_send_len) in {(F,100,128),(T,100,128),(F,0,128),(F,1,14)}",
-  "thorough": "as quick with length <= 4",
+  "quick": "all histories of length <= 3 over the 20-op alphabet (3 hosts on one 4-port switch: 12 unicast/broadcast/unknown "
+           "frames (host 0 sends IPv4/UDP with ECN bits set, host 1 first fragments of IPv4/TCP with a DSCP, host 2 ARP with opcode 256; one frame whose source is the broadcast address), LLDP-type and 01:80:c2:00:00:00 frame, 3 moves, advance 12 s / 32 s) x 4 configurations "
+           "(transparent, pool, miss_send_len) in {(F,100,128),(T,100,128),(F,0,128),(F,1,14)}; bursts of 16/25/40 back-to-back "
+           "broadcast frames and alternating known-unicast frames with payload sizes 96..132 under three buffer configurations",
+  "thorough": "as quick with length <= 4 and burst payload sizes 60..199",
 }
 
 _S = {}
@@ -106,74 +107,107 @@ def _ipv4(sip, dip, proto, payload, seq, tos=0, frag=0):
   return h[:10] + struct.pack("!H", _csum(h)) + h[12:] + payload
 
 
-def _l4(kind, sip, dip, v, tag):
-  """(protocol number, bytes) of a UDP / TCP / ICMP echo carrying the tag."""
+def _l4(kind, sip, dip, v, tag, x):
+  """(protocol number, bytes) of a UDP / TCP / ICMP message carrying the tag; x overrides header fields."""
   if kind == "udp":
     ulen = 8 + len(tag)
-    sp, dp = 1000, 2000 + (v & 1)
+    sp, dp = x.get("sp", 1000) & 0xffff, x.get("dp", 2000 + (v & 1)) & 0xffff
     u = struct.pack("!HHHH", sp, dp, ulen, 0) + tag
     c = _csum(sip + dip + struct.pack("!BBH", 0, 17, ulen) + u) or 0xffff
     return 17, struct.pack("!HHHH", sp, dp, ulen, c) + tag
   if kind == "tcp":
-    sp, dp = 3000, 4000 + (v & 1)
+    sp, dp = x.get("sp", 3000) & 0xffff, x.get("dp", 4000 + (v & 1)) & 0xffff
     t_ = struct.pack("!HHLLBBHHH", sp, dp, 1, 0, 5 << 4, 0x18, 1024, 0, 0) + tag
     c = _csum(sip + dip + struct.pack("!BBH", 0, 6, len(t_)) + t_)
     return 6, t_[:16] + struct.pack("!H", c) + t_[18:]
   if kind == "icmp":
-    i_ = struct.pack("!BBHHH", 8, v & 1, 0, 7, 1) + tag
+    i_ = struct.pack("!BBHHH", x.get("sp", 8) & 0xff, x.get("dp", v & 1) & 0xff, 0, 7, 1) + tag
     return 1, i_[:2] + struct.pack("!H", _csum(i_)) + i_[4:]
+  if kind == "raw":                           # any protocol number, opaque body
+    return x.get("proto", 253) & 0xff, tag
   raise HarnessError("bad l4 %r" % (kind,))
 
 
-def build_frame(src_i, dmac, dst_ip_i, t, v, n, seq, tos=0, frag=0):
+GROUP_SRC = [b"\xff" * 6, b"\x01\x00\x5e\x00\x00\x01", b"\x33\x33\x00\x00\x00\x01", b"\x01\x80\xc2\x00\x00\x10"]
+
+
+def build_frame(src_i, dmac, dst_ip_i, t, v, n, seq, x=None):
   """One Ethernet frame.  t: 0 opaque ethertype, 1 IPv4/UDP, 2 ARP, 3 LLDP ethertype, 4 802.1Q + opaque, 5 802.3/LLC,
-  6 IPv4/TCP, 7 IPv4/ICMP, 8 802.1Q + IPv4/UDP.  v: header variant (changes a matched header field), n: extra payload
-  bytes, seq: unique id carried in the payload, tos: IPv4 TOS byte (DSCP << 2 | ECN), frag: IPv4 fragmentation."""
+  6 IPv4/TCP, 7 IPv4/ICMP, 8 802.1Q + IPv4/UDP, 9 RARP, 10 IPv4 with any protocol number.  v: header variant, n: extra
+  payload bytes, seq: unique id carried in the payload.  x: header fields that feed an OpenFlow match --
+  tos, frag (0 whole, 1 first fragment, 2 later fragment), sp/dp (ports or ICMP type/code), proto, vid, pcp,
+  op (ARP opcode), aip (ARP addresses index), gs (1..4: the source address is a group address)."""
+  x = x or {}
   src = host_mac(src_i)
+  if x.get("gs"):
+    src = GROUP_SRC[(x["gs"] - 1) % len(GROUP_SRC)]
   tag = struct.pack("!I", seq) + bytes((seq + k) & 0xff for k in range(n))
+  vtag = struct.pack("!H", ((x.get("pcp", 5) & 7) << 13) | (x.get("vid", 7 + (v & 1)) & 0xfff))
   if t == 0:
     return dmac + src + struct.pack("!H", 0x88b5 + (v & 1)) + tag
-  if t in (1, 6, 7, 8):
+  if t in (1, 6, 7, 8, 10):
     sip, dip = _ip(src_i), _ip(dst_ip_i)
-    proto, l4 = _l4({1: "udp", 6: "tcp", 7: "icmp", 8: "udp"}[t], sip, dip, v, tag)
+    proto, l4 = _l4({1: "udp", 6: "tcp", 7: "icmp", 8: "udp", 10: "raw"}[t], sip, dip, v, tag, x)
+    frag = x.get("frag", 0) % 3
     if frag == 2:
       l4 = tag + bytes(8)                   # a later fragment carries no transport header
-    ip = _ipv4(sip, dip, proto, l4, seq, tos, frag)
+    ip = _ipv4(sip, dip, proto, l4, seq, x.get("tos", 0), frag)
     if t == 8:
-      return dmac + src + b"\x81\x00" + struct.pack("!HH", (5 << 13) | (7 + (v & 1)), 0x0800) + ip
+      return dmac + src + b"\x81\x00" + vtag + b"\x08\x00" + ip
     return dmac + src + b"\x08\x00" + ip
-  if t == 2:
-    body = struct.pack("!HHBBH", 1, 0x0800, 6, 4, 1 + (v & 1)) + src + _ip(src_i) + b"\0" * 6 + _ip(dst_ip_i)
-    return dmac + src + b"\x08\x06" + body + tag
+  if t in (2, 9):
+    op = x["op"] & 0xffff if "op" in x else (1 + (v & 1) if t == 2 else 3 + (v & 1))
+    k = x.get("aip", 0)
+    spa = _ip(src_i) if not k else [b"\0\0\0\0", b"\xff\xff\xff\xff", b"\xe0\0\0\x01"][(k - 1) % 3]
+    tpa = _ip(dst_ip_i) if k < 2 else [b"\xff\xff\xff\xff", b"\0\0\0\0", b"\x7f\0\0\x01"][(k - 1) % 3]
+    body = struct.pack("!HHBBH", 1, 0x0800, 6, 4, op) + host_mac(src_i) + spa + b"\0" * 6 + tpa
+    return dmac + src + (b"\x08\x06" if t == 2 else b"\x80\x35") + body + tag
   if t == 3:
     # LLDP ethertype; chassis-id, port-id, ttl, end TLVs, then the tag as trailing bytes of an org-specific TLV
     tl = lambda ty, val: struct.pack("!H", (ty << 9) | len(val)) + val
-    body = tl(1, b"\x04" + src) + tl(2, b"\x02" + bytes([0x30 + (v & 1)])) + tl(3, b"\x00\x78")
+    body = tl(1, b"\x04" + host_mac(src_i)) + tl(2, b"\x02" + bytes([0x30 + (v & 1)])) + tl(3, b"\x00\x78")
     body += tl(127, (b"\x00\x26\xe1\x00" + tag)[:500]) + tl(0, b"")
     return dmac + src + b"\x88\xcc" + body
   if t == 4:
-    return dmac + src + b"\x81\x00" + struct.pack("!HH", (2 << 13) | (5 + (v & 1)), 0x88b5) + tag
+    if "vid" not in x and "pcp" not in x:
+      vtag = struct.pack("!H", (2 << 13) | (5 + (v & 1)))
+    return dmac + src + b"\x81\x00" + vtag + struct.pack("!H", 0x88b5) + tag
   if t == 5:
     pl = bytes([0x42 + 2 * (v & 1), 0x42, 0x03]) + tag
     return dmac + src + struct.pack("!H", len(pl)) + pl
   raise HarnessError("bad template %r" % (t,))
 
 
-NT = 9          # number of header templates
+NT = 11         # number of header templates
 TOS = [0, 0x01, 0x02, 0x03, 0xb8, 0xb9, 0x28, 0xff]
+XKEYS = ("tos", "frag", "sp", "dp", "proto", "vid", "pcp", "op", "aip", "gs")
+
+
+def fields_of(fop):
+  """The header-field overrides of a frame op (old cases carry tos/frag at top level)."""
+  x = dict(fop.get("x") or {})
+  for k in ("tos", "frag"):
+    if k in fop and k not in x:
+      x[k] = fop[k]
+  return {k: int(x[k]) for k in XKEYS if k in x and x[k] is not None}
 
 
 def frame_class(fop):
   t = fop.get("t", 0) % NT
-  if t in (1, 6, 7, 8):
-    if fop.get("frag", 0) % 3:
+  x = fields_of(fop)
+  if x.get("gs"):
+    return "group-source"
+  if t in (1, 6, 7, 8, 10):
+    if x.get("frag", 0) % 3:
       return "ipv4-fragment"
-    if fop.get("tos", 0) & 3:
+    if x.get("tos", 0) & 3:
       return "ipv4-ecn"
-    if fop.get("tos", 0):
+    if x.get("tos", 0):
       return "ipv4-dscp"
-    return ["", "ipv4-udp", "", "", "", "", "ipv4-tcp", "ipv4-icmp", "vlan-ipv4"][t]
-  return ["opaque", "", "arp", "lldp-type", "vlan", "llc"][t]
+    return {1: "ipv4-udp", 6: "ipv4-tcp", 7: "ipv4-icmp", 8: "vlan-ipv4", 10: "ipv4-other-proto"}[t]
+  if t in (2, 9) and x.get("op", 1) > 255:
+    return "arp-opcode-16bit"
+  return {0: "opaque", 2: "arp", 3: "lldp-type", 4: "vlan", 5: "llc", 9: "rarp"}[t]
 
 
 SETTLE_ROUNDS = 120     # a frame needs a handful of control round trips per hop; 3 hops at most
@@ -247,14 +281,23 @@ def run_case(case):
       dmac = dst_mac(d)
       seq[0] += 1
       t_ = fop.get("t", 0) % NT
-      raw = build_frame(h, dmac, d[1] if d[0] == "h" else 200, t_,
-                        fop.get("v", 0), fop.get("n", 0), seq[0], fop.get("tos", 0) & 0xff, fop.get("frag", 0) % 3)
+      x_ = fields_of(fop)
+      raw = build_frame(h, dmac, d[1] if d[0] == "h" else 200, t_, fop.get("v", 0), fop.get("n", 0), seq[0], x_)
       st_["classes"].add(frame_class(fop))
       canon = pkt.ethernet(raw).pack()
       if canon != raw:
+        # POX's packet library does not re-serialise this frame byte-identically (e.g. a UDP port with a payload
+        # parser).  That is C14's subject: here the host sends the re-serialised form if that is stable, else the
+        # same addresses with an opaque ethertype.
         st_["noncanon"] += 1
+        if pkt.ethernet(canon).pack() == canon:
+          raw = canon
+        else:
+          t_, x_ = 0, ({"gs": x_["gs"]} if x_.get("gs") else {})
+          raw = build_frame(h, dmac, 200, 0, fop.get("v", 0), fop.get("n", 0), seq[0], x_)
+          canon = pkt.ethernet(raw).pack()
       meta = {"seq": seq[0], "h": h, "d": d,
-              "tmpl": (t_, fop.get("v", 0) & 1, fop.get("tos", 0) & 0xff, fop.get("frag", 0) % 3),
+              "tmpl": (t_, fop.get("v", 0) & 1) + tuple(sorted(x_.items())),
               "origin": where[h], "raw": raw, "canon": canon, "cls": frame_class(fop)}
       frames[canon] = meta
       frames[raw] = meta          # (identity of POX's parse -> pack on these frames is C14's subject, not judged here)
@@ -264,7 +307,8 @@ def run_case(case):
           st_["nontrivial"] = True
         if st_["gap_after_flow"] and sent[d[1]]:
           st_["nontrivial"] = True
-      sent[h] = True
+      if not x_.get("gs"):
+        sent[h] = True
       st_["frames"] += 1
       return raw, meta
 
@@ -316,6 +360,15 @@ def run_case(case):
       for k, c in seen.items():
         if c > 1:
           out.fail("delivered-twice", "frame %d reached edge port %d.%d %d times" % (k[0], k[1], k[2], c))
+      # the control channel must survive whatever the hosts send
+      for d in range(1, n + 1):
+        lk = w.switches[d].link
+        if (lk is None or not lk.alive or lk.con.disconnected) and not st_.get("lost"):
+          st_["lost"] = True
+          out.fail("control-connection-lost", "the controller gave up the connection to switch %d (after %d bytes from the "
+                   "switch); frames of this operation: %r" % (
+                       d, lk.bytes_to_controller if lk else -1, sorted(set(frames[h_["data"]]["cls"] for h_ in hops if h_["data"] in frames))),
+                   wave=bool(wave))
       # quiescence: no buffer may stay occupied
       if not st_["leak_reported"]:
         for d in range(1, n + 1):
@@ -372,7 +425,7 @@ def run_case(case):
 
     for op in case["ops"]:
       o = op["o"]
-      net.reset_budget(400)
+      net.reset_budget(1000)
       if o in ("f", "r"):
         op = resolve(op)
         raw, meta = make(op)
@@ -391,6 +444,25 @@ def run_case(case):
         net.mode = "seq"
         judge(True)
         st_["burst"] = True
+      elif o == "bb":
+        # many back-to-back frames from one template with varied sizes: the packet-ins queue up in the switch's
+        # send buffer and reach the controller through 2048-byte reads
+        net.mode = "wave"
+        base = resolve(dict(op["f"]))
+        ns = op.get("ns") or [base.get("n", 0)]
+        for i in range(max(1, op["k"])):
+          fop = dict(base)
+          fop["n"] = ns[i % len(ns)]
+          if op.get("alt") and i % 2 and fop["d"][0] == "h":
+            fop["h"], fop["d"] = fop["d"][1] % nh, ["h", fop["h"] % nh]
+          raw, meta = make(fop)
+          net.inject(meta["origin"][0], meta["origin"][1], raw)
+        if not settle():
+          break
+        net.mode = "seq"
+        judge(True)
+        st_["burst"] = True
+        st_["bigburst"] = True
       elif o == "mv":
         h = op["h"] % nh
         if free:
@@ -411,7 +483,7 @@ def run_case(case):
           out.fail("stray-emission", "frames moved while only time passed: %r" % ([(h["sw"], h["in_port"]) for h in hops] + stray[:3],))
       else:
         raise HarnessError("bad op %r" % (op,))
-      if len(out.violations) > 12:
+      if len(out.violations) > 12 or st_.get("lost"):
         break
 
     if w.deferred.calls:
@@ -433,6 +505,8 @@ def run_case(case):
       out.label("has:pool-exhausted")
     if st_.get("burst"):
       out.label("has:burst")
+    if st_.get("bigburst"):
+      out.label("has:burst>=16")
     if st_["multi_hop"]:
       out.label("has:multi-hop")
     if st_["noncanon"]:
@@ -453,11 +527,12 @@ def _alphabet():
     for j in range(3):
       if j != h:
         ops.append(dict({"o": "f", "h": h, "d": ["h", j], "v": 0, "n": 40},
-                        **[{"t": 1, "tos": 0x03}, {"t": 6, "tos": 0xb8, "frag": 1}, {"t": 0}][h]))
+                        **[{"t": 1, "x": {"tos": 0x03}}, {"t": 6, "x": {"tos": 0xb8, "frag": 1}}, {"t": 2, "x": {"op": 256}}][h]))
     ops.append({"o": "f", "h": h, "d": ["b"], "t": 2, "v": 0, "n": 18})
-    ops.append({"o": "f", "h": h, "d": ["u", 1], "t": 1, "v": 0, "n": 40, "frag": h})
+    ops.append({"o": "f", "h": h, "d": ["u", 1], "t": 1, "v": 0, "n": 40, "x": {"frag": h}})
   ops.append({"o": "f", "h": 0, "d": ["h", 1], "t": 3, "v": 0, "n": 10})
   ops.append({"o": "f", "h": 0, "d": ["bf", 0], "t": 0, "v": 0, "n": 40})
+  ops.append({"o": "f", "h": 0, "d": ["h", 1], "t": 0, "v": 0, "n": 40, "x": {"gs": 1}})     # broadcast address as SOURCE
   for h in range(3):
     ops.append({"o": "mv", "h": h, "to": 0})
   ops.append({"o": "adv", "dt": 96})
@@ -481,6 +556,18 @@ def enum_short(tier):
                "hosts": [0, 0, 0], "ops": [ops[i] for i in seq]}
 
 
+def enum_bursts(tier):
+  """Back-to-back table misses whose packet-ins fill more than one 2048-byte read of the controller."""
+  sizes = list(range(96, 134, 2)) if tier == "quick" else list(range(60, 200))
+  for n_ in sizes:
+    for k in (16, 25, 40):
+      for (pool, msl) in ((100, 128), (0, 128), (100, 2048)):
+        yield {"k": "hist", "transparent": False, "pool": pool, "msl": msl, "parents": [], "nports": 4, "hosts": [0, 0, 0],
+               "ops": [{"o": "bb", "k": k, "ns": [n_], "alt": False, "f": {"o": "f", "h": 0, "d": ["b"], "t": 0, "v": 0, "n": n_}},
+                       {"o": "bb", "k": k, "ns": [n_, 40, n_ + 1], "alt": True,
+                        "f": {"o": "f", "h": 1, "d": ["h", 0], "t": 1, "v": 0, "n": n_}}]}
+
+
 # --------------------------------------------------------------------------- Hypothesis histories
 
 def _dest(nh, focused):
@@ -492,20 +579,36 @@ def _dest(nh, focused):
   return st.one_of(*([h] * (8 if focused else 3) + rest))
 
 
+def _b(vals, hi):
+  return st.one_of(st.sampled_from(vals), st.integers(0, hi))
+
+
+def _x(focused):
+  """Header fields that feed ofp_match.from_packet, from their wire ranges with boundaries."""
+  port = _b([0, 1, 67, 255, 256, 1023, 1024, 0x7fff, 0x8000, 0xfffe, 0xffff], 0xffff)
+  full = st.fixed_dictionaries({}, optional={
+      "tos": _b(TOS, 255), "frag": st.sampled_from([0, 0, 1, 2]), "sp": port, "dp": port,
+      "proto": _b([0, 1, 2, 6, 17, 47, 50, 89, 132, 253, 254, 255], 255),
+      "vid": _b([0, 1, 2, 0xffe, 0xfff], 0xfff), "pcp": st.integers(0, 7),
+      "op": _b([0, 1, 2, 3, 4, 255, 256, 257, 0x7fff, 0x8000, 0xffff], 0xffff), "aip": st.integers(0, 3),
+      "gs": st.sampled_from([0, 0, 0, 1, 2, 3, 4])})
+  few = st.sampled_from([{"tos": 0x02}, {"tos": 0xb9}, {"frag": 1}, {"frag": 2}, {"gs": 1}, {"gs": 2}, {"op": 256}, {"op": 0xffff}])
+  if focused:
+    return st.one_of(*([st.just({})] * 6 + [few, few, full]))
+  return st.one_of(*([st.just({})] * 3 + [few, full, full]))
+
+
 def _frame(nh, focused):
-  tos = st.sampled_from([0, 0, 0, 0] + TOS)
-  frag = st.sampled_from([0] * 5 + [1, 2])
   if focused:
     # conversations: few header templates so that cached flows are hit again
     return st.fixed_dictionaries({
         "o": st.just("f"), "h": st.integers(0, nh - 1), "d": _dest(nh, True),
-        "t": st.sampled_from([0, 0, 0, 0, 1, 1, 6, 3]), "v": st.sampled_from([0, 0, 0, 1]),
-        "n": st.sampled_from([40, 40, 40, 300]), "tos": st.sampled_from([0, 0, 0, 0, 0, 0, 0x02, 0xb9]),
-        "frag": st.sampled_from([0] * 7 + [1, 2])})
+        "t": st.sampled_from([0, 0, 0, 0, 1, 1, 6, 3, 2]), "v": st.sampled_from([0, 0, 0, 1]),
+        "n": st.sampled_from([40, 40, 40, 300]), "x": _x(True)})
   return st.fixed_dictionaries({
       "o": st.just("f"), "h": st.integers(0, nh - 1), "d": _dest(nh, False),
-      "t": st.sampled_from([0, 0, 1, 1, 6, 7, 8, 2, 3, 4, 5]), "v": st.integers(0, 1),
-      "n": st.sampled_from([0, 10, 40, 40, 120, 300]), "tos": tos, "frag": frag})
+      "t": st.sampled_from([0, 0, 1, 1, 6, 7, 8, 2, 2, 9, 10, 3, 4, 5]), "v": st.integers(0, 1),
+      "n": st.sampled_from([0, 10, 40, 40, 120, 300]), "x": _x(False)})
 
 
 @st.composite
@@ -528,6 +631,8 @@ def _history(draw, maxops):
       adv,
       st.fixed_dictionaries({"o": st.just("adv"), "dt": st.sampled_from(ADV)}),
       st.fixed_dictionaries({"o": st.just("burst"), "fs": st.lists(st.one_of(fr, fr, rep), min_size=2, max_size=5)}),
+      st.fixed_dictionaries({"o": st.just("bb"), "k": st.integers(16, 40), "alt": st.booleans(), "f": fr,
+                             "ns": st.lists(st.sampled_from([0, 10, 40, 100, 106, 110, 111, 120, 128, 300]), min_size=1, max_size=4)}),
   )
   # Hypothesis' lists are short on average; ask for the length first so that long histories are common
   ln = draw(st.sampled_from([6, 12, 25, 50, 100, 200]).filter(lambda x: x <= maxops) if maxops >= 6 else st.just(maxops))
@@ -543,6 +648,8 @@ def _history(draw, maxops):
 def plan(tier):
   if tier == "quick":
     return [Enum("short-histories", lambda: enum_short("quick"), shards=16),
+            Enum("big-bursts", lambda: enum_bursts("quick"), shards=16),
             Hyp("histories", lambda: _history(60), examples=2400, shards=16)]
   return [Enum("short-histories", lambda: enum_short("thorough"), shards=16),
+          Enum("big-bursts", lambda: enum_bursts("thorough"), shards=16),
           Hyp("histories", lambda: _history(200), examples=40000, shards=16)]
